@@ -328,6 +328,10 @@ func Encrypt(pub *PublicKey, data []byte, random io.Reader, mode int) ([]byte, e
 }
 
 func Decrypt(priv *PrivateKey, data []byte, mode int) ([]byte, error) {
+	// 0x04 || x1 || y1 || C3 (32 bytes) || C2 (at least one byte)
+	if len(data) < 1+64+32+1 {
+		return nil, errors.New("Decrypt: ciphertext too short")
+	}
 	switch mode {
 	case C1C3C2:
 		data = data[1:]
@@ -520,6 +524,9 @@ func DecryptAsn1(pub *PrivateKey, data []byte) ([]byte, error) {
 *  CipherText
  */
 func CipherMarshal(data []byte) ([]byte, error) {
+	if len(data) < 1+64+32 {
+		return nil, errors.New("CipherMarshal: ciphertext too short")
+	}
 	data = data[1:]
 	x := new(big.Int).SetBytes(data[:32])
 	y := new(big.Int).SetBytes(data[32:64])
@@ -546,6 +553,10 @@ func CipherUnmarshal(data []byte) ([]byte, error) {
 	cipherText := cipher.CipherText
 	if err != nil {
 		return nil, err
+	}
+	if cipher.XCoordinate.Sign() < 0 || cipher.YCoordinate.Sign() < 0 ||
+		len(x) > 32 || len(y) > 32 || len(hash) != 32 {
+		return nil, errors.New("CipherUnmarshal: invalid ciphertext")
 	}
 	if n := len(x); n < 32 {
 		x = append(zeroByteSlice()[:32-n], x...)
